@@ -315,6 +315,18 @@ class TrRecv:
         t = u(e)
         if t == "self._can_perform_action()":
             return "s.canAct", []
+        # the power state of the node the service runs on (second shift, blind change C17-h: before, this condition was Unsupported
+        # and the changed guard was never translated)
+        if t in ("self.software_manager.node.operating_state == NodeOperatingState.ON",
+                 "self.software_manager.node.operating_state is NodeOperatingState.ON"):
+            return "s.node.isOn", []
+        if t in ("self.software_manager.node.operating_state != NodeOperatingState.ON",
+                 "self.software_manager.node.operating_state is not NodeOperatingState.ON"):
+            return "(!s.node.isOn)", []
+        if t in ("self.operating_state == ServiceOperatingState.RUNNING", "self.operating_state is ServiceOperatingState.RUNNING"):
+            return "(s.op == SvcState.running)", []
+        if t in ("self.operating_state != ServiceOperatingState.RUNNING", "self.operating_state is not ServiceOperatingState.RUNNING"):
+            return "(!(s.op == SvcState.running))", []
         if t == "isinstance(payload, dict)":
             return "payload.isDict", []
         if t == "payload.get('type')":
